@@ -277,3 +277,73 @@ def validateTotalPop (nAgents : Nat) (totalPop popScale : Option Rat) : Except E
   | none, none => .ok ((nAgents : Rat), (nAgents : Rat) / (nAgents : Rat))
 
 end StarsimModel.Results
+
+/-! ## Population flows: agents created and removed per step (People.grow / request_death / step_die / remove_dead)
+
+One sim step `ti` as far as the flows are concerned (loop order of `Loop.collect_funcs`):
+  1. demographic modules create agents (`Births.step`, `Pregnancy.make_embryos` -> `People.grow`): `born` fresh living agents
+  2. modules request deaths (`People.request_death`: `ti_dead = ti`) for the positions selected by `req`
+  3. `People.step_die`: `alive = False` where `ti_dead <= ti`
+  4. `update_results` — this is the snapshot the recorders above read
+  5. `finish_step` of the modules may still request deaths (`late`, e.g. `Pregnancy.finish_step`: `ti_dead = ti`, after the recording)
+  6. `People.finish_step` -> `remove_dead`: the agents that are not alive leave `auids`. -/
+namespace StarsimModel.Results
+
+structure PopStep where
+  born : Nat
+  req : List Nat              -- positions (in the active list after growth) whose death is requested before resolution
+  late : List Nat             -- positions whose death is requested after the recording
+deriving Repr, DecidableEq
+
+def fresh : Person := ⟨true, none⟩
+
+def markDead (ti : Nat) (sel : List Nat) (l : List Person) : List Person :=
+  l.zipIdx.map (fun (p, i) => if sel.contains i then { p with tiDead := some (ti : Int) } else p)
+
+def resolve (ti : Nat) (l : List Person) : List Person :=
+  l.map (fun p => match p.tiDead with
+    | some d => if d ≤ (ti : Int) then { p with alive := false } else p
+    | none => p)
+
+/-- the active agents as `update_results` sees them at step `ti` -/
+def popSnapshot (ti : Nat) (act : List Person) (s : PopStep) : List Person :=
+  resolve ti (markDead ti s.req (act ++ List.replicate s.born fresh))
+
+/-- the active agents at the start of step `ti + 1` -/
+def popNext (ti : Nat) (act : List Person) (s : PopStep) : List Person :=
+  (markDead ti s.late (popSnapshot ti act s)).filter (·.alive)
+
+/-- the snapshots of a whole history (newest first) together with the active list after it -/
+def popRunRev (act0 : List Person) : List PopStep → List (List Person) × List Person
+  | [] => ([], act0)
+  | s :: earlier =>
+      let (snaps, act) := popRunRev act0 earlier
+      (popSnapshot earlier.length act s :: snaps, popNext earlier.length act s)
+
+def popRun (act0 : List Person) (steps : List PopStep) : List (List Person) × List Person :=
+  let (snaps, act) := popRunRev act0 steps.reverse
+  (snaps.reverse, act)
+
+/-- agents that leave the active set at the end of the step: active and not alive at the recording -/
+def removedOf (snap : List Person) : Nat := count (fun p => !p.alive) snap
+
+/-! ## Rates computed in `finalize` (`Deaths.cmr`, `Pregnancy.cbr`) from the final store -/
+
+/-- a rate that `finalize` computes from two (already scaled) series: `new / n_alive[inds] / units` -/
+structure RateSpec where
+  key : String
+  newKey : String
+  aliveKey : String
+  units : Rat
+  inds : List Nat            -- `match_time_inds()`; `[]` = same timeline (Ellipsis)
+deriving Repr, DecidableEq
+
+def gather (inds : List Nat) (l : List Rat) : List Rat :=
+  if inds.isEmpty then l else inds.map (fun i => l.getD i 0)
+
+def rateOf (st : List Series) (r : RateSpec) : Option (List (Option Rat)) :=
+  match lookup st r.newKey, lookup st r.aliveKey with
+  | some n, some a => some (rateSeries r.units n.vals (gather r.inds a.vals))
+  | _, _ => none
+
+end StarsimModel.Results
